@@ -204,7 +204,7 @@ def ro_lower_hysteresis(o):
     ps = o.paths(lambda: call(o, ro, 'lower_hysteresis', SV(s, kind='scalar'), SV(smax, kind='scalar')))
     rets = [p for p in ps if p.kind == 'return']
     raises = [p for p in ps if p.kind == 'raise']
-    assert len(rets) == 1 and len(raises) == 1, ps
+    o.shape('lower_hysteresis: one returning and one raising path', len(rets) == 1 and len(raises) == 1, [(p.kind, getattr(p.exc, 'exc_type', None)) for p in ps])
     o.prove('raises iff s > smax', z3.And(*raises[0].pc) == (s > smax))
     o.prove('returns iff s <= smax', z3.And(*rets[0].pc) == (s <= smax))
     r = rets[0].result
